@@ -107,6 +107,7 @@ SCRIPTS = {
                                 ["event", "release_hold"], ["drain"], ["drain"], ["drain"]]),
     "two-attempts": ("t1", {"ball_devices": {"bd_plunger": {"max_eject_attempts": 2}}}, [["start"], ["drain"]]),
 }
+LONG_SCRIPTS = ("over-request", "stale-lock-request", "held-balls")
 QUICK_SCRIPTS = ("one-ball-game", "two-balls-in-play", "mechanical-plunger", "lock-shot", "saucer-shot", "plunger-lane-return",
                  "over-request", "outhole", "full-trough", "stale-lock-request", "held-balls")
 MAX_REST_STEPS = 400
@@ -455,8 +456,12 @@ def explore(ctx, prefix):
     total_exec, total_steps = 0, 0
     outcomes = set()
     states = set()
+    bounds = {}
     for name in (QUICK_SCRIPTS if quick else SCRIPTS):
-        res = dbs(make_driver(name), bound, horizon=120)
+        # the long scripts (30-50 choice points by default) get one deviation less
+        b = bound - 1 if name in LONG_SCRIPTS else bound
+        bounds[name] = b
+        res = dbs(make_driver(name), b, horizon=120)
         total_exec += res.executions
         total_steps += res.steps
         outcomes |= set(res.outcomes)
@@ -471,11 +476,11 @@ def explore(ctx, prefix):
         ctx.guard("bound_completed_" + name, res.bound_completed + 1)
     ctx.guard("distinct_outcomes", len(outcomes))
     ctx.add(executions=total_exec, states=len(states), transitions=total_steps, traces_validated_against_impl=total_exec,
-            deviation_bound=bound, distinct_final_states=len(outcomes), exhaustive=True)
+            deviation_bound=bound, deviation_bound_per_script=bounds, distinct_final_states=len(outcomes), exhaustive=True)
     ctx.assume("topologies %s; scripts %s" % (sorted(TOPO), {k: (v[0], v[1], v[2]) for k, v in SCRIPTS.items() if not quick or k in QUICK_SCRIPTS}),
                "world outcomes per coil pulse: ok / silent (playfield only) / falls back after 0.6 s / does not move / arrives 1 s "
                "after the eject timeout; transit 0.3 s between devices, 1 s to the first playfield switch",
-               "deviation bound %d; every execution is run to rest with default answers" % bound,
+               "deviation bound %d (%d for the long scripts %s); every execution is run to rest with default answers" % (bound, bound - 1, list(LONG_SCRIPTS)),
                "ideal switches (no bounce); ball search disabled; balls never vanish")
     return ("starts", "drains", "rest_states", "distinct_outcomes")
 
